@@ -57,3 +57,281 @@ func VH_ParseHole() {
 }
 
 var _ = strings.Index
+
+// ---- C14: every token of the line is accounted for --------------------------------------------
+
+func init() { vEntries["VH_Tokens"] = VH_Tokens }
+
+// line shapes: each letter is one flag (with its argument), '#' is a stray positional word
+var vShapes = []string{
+	"aF", "aFF", "Fa", "aS", "aSk", "aFk", "Ak", "aC", "aCF", "akk", "aSS",
+	"w", "wp", "wk", "wpk", "pw", "kw", "D", "Dk",
+	// must be rejected
+	"F", "S", "C", "aAF", "aw", "Dw", "DaF", "wF", "",
+	// stray words
+	"#aF", "a#F", "aF#", "w#pk", "wp#", "D#", "#D", "aS#k",
+}
+
+var vAddArgs = []string{"always,exit", "exit,never", " task , always ", "user,always", "exclude,never"}
+
+func vIsSpace(c byte) bool {
+	return vOr(vOr(c == ' ', c == '\t'), vOr(vOr(c == '\n', c == '\r'), vOr(c == '\v', c == '\f')))
+}
+
+func vIsWord(c byte) bool {
+	return vOr(vOr(vAnd(c >= 'a', c <= 'z'), vAnd(c >= 'A', c <= 'Z')), vOr(vAnd(c >= '0', c <= '9'), c == '_'))
+}
+
+func vTrim(s string) string {
+	for len(s) > 0 && vIsSpace(s[0]) {
+		s = s[1:]
+	}
+	for len(s) > 0 && vIsSpace(s[len(s)-1]) {
+		s = s[:len(s)-1]
+	}
+	return s
+}
+
+var vFilterOps = []string{"<=", ">=", "&=", "!=", "=", "<", ">", "&"} // longest first
+var vCompareOps = []string{"!=", "="}
+
+// vSplitFilter reads "field op value" from a token the way the property describes it: the field is
+// the word before the operator, the operator is the leftmost-longest one, the value is the complete
+// text after it. ok=false when the token has no such shape.
+func vSplitFilter(tok string, ops []string) (lhs, op, rhs string, ok bool) {
+	t := vTrim(tok)
+	i := 0
+	for i < len(t) && vIsWord(t[i]) {
+		i++
+	}
+	if i == 0 {
+		return "", "", "", false
+	}
+	lhs = t[:i]
+	rest := t[i:]
+	for len(rest) > 0 && vIsSpace(rest[0]) {
+		rest = rest[1:]
+	}
+	for _, o := range ops {
+		if strings.HasPrefix(rest, o) {
+			op = o
+			break
+		}
+	}
+	if op == "" {
+		return "", "", "", false
+	}
+	rhs = rest[len(op):]
+	if len(rhs) == 0 {
+		return "", "", "", false
+	}
+	return lhs, op, rhs, true
+}
+
+type vTok struct {
+	kind byte
+	arg  string
+}
+
+// VH_Tokens: a line assembled from a token list the harness keeps.
+func VH_Tokens() {
+	shape := vShapes[vParam("shape", 0)]
+	hole := vParam("hole", 4)
+	var toks []vTok
+	var line string
+	for i := 0; i < len(shape); i++ {
+		k := shape[i]
+		var arg string
+		switch k {
+		case 'a', 'A':
+			arg = vAddArgs[vChoose("add", len(vAddArgs))]
+		case 'F', 'C':
+			arg = vASCII("filter", vLen("filterlen", hole))
+		case 'S', 'k', 'w', 'p':
+			arg = vASCII("arg", vLen("arglen", vParam("arghole", 3)))
+		case '#':
+			arg = []string{"foo", "x=y", "-"}[vChoose("stray", 3)]
+		}
+		for j := 0; j < len(arg); j++ {
+			vAssume(arg[j] != '\'') // so that single-quoting is exact
+		}
+		toks = append(toks, vTok{k, arg})
+		if len(line) > 0 {
+			line += " "
+		}
+		switch k {
+		case '#':
+			line += arg
+		case 'D':
+			line += "-D"
+		default:
+			line += "-" + string([]byte{k}) + " '" + arg + "'"
+		}
+	}
+	r, err := Parse(line)
+	if err != nil {
+		vAssert(r == nil, "C14/rule-returned-with-error")
+		vReach("C14/rejected")
+		return
+	}
+	vReach("C14/accepted")
+	vAssert(r != nil, "C14/neither-rule-nor-error")
+	if r == nil {
+		return
+	}
+	// what the tokens say
+	var nD, nW, nP, nA, nBigA, nF, nC, nS, nStray int
+	for _, t := range toks {
+		switch t.kind {
+		case 'D':
+			nD++
+		case 'w':
+			nW++
+		case 'p':
+			nP++
+		case 'a':
+			nA++
+		case 'A':
+			nBigA++
+		case 'F':
+			nF++
+		case 'C':
+			nC++
+		case 'S':
+			nS++
+		case '#':
+			nStray++
+		}
+	}
+	if vKF("C14-stray-word-ends-parsing") && nStray > 0 {
+		vKnown("C14-stray-word-ends-parsing", false)
+		return
+	}
+	vAssert(nStray == 0, "C14/stray-word-silently-ignored")
+	fam := 0
+	if nD > 0 {
+		fam++
+	}
+	if nW+nP > 0 {
+		fam++
+	}
+	if nA+nBigA+nF+nC+nS > 0 {
+		fam++
+	}
+	vAssert(fam == 1, "C14/mixed-or-missing-operation-accepted")
+	if fam != 1 || nStray > 0 {
+		return
+	}
+	var keys []string
+	for _, t := range toks {
+		if t.kind == 'k' {
+			for _, w := range strings.Split(t.arg, ",") {
+				keys = append(keys, vTrim(w))
+			}
+		}
+	}
+	sameList := func(got, want []string, label string) {
+		vAssert(len(got) == len(want), label)
+		for i := range got {
+			if i < len(want) {
+				vAssert(got[i] == want[i], label)
+			}
+		}
+	}
+	switch rr := r.(type) {
+	case *rule.DeleteAllRule:
+		vAssert(nD > 0, "C14/wrong-rule-kind")
+		sameList(rr.Keys, keys, "C14/key-not-reflected")
+	case *rule.FileWatchRule:
+		vAssert(nW+nP > 0 && nD == 0, "C14/wrong-rule-kind")
+		sameList(rr.Keys, keys, "C14/key-not-reflected")
+		for _, t := range toks {
+			switch t.kind {
+			case 'w':
+				vAssert(rr.Path == t.arg, "C14/watch-path-not-reflected") // (single -w per line in these shapes)
+			case 'p':
+				vAssert(len(rr.Permissions) == len(t.arg), "C14/permissions-not-reflected")
+				for i := 0; i < len(t.arg) && i < len(rr.Permissions); i++ {
+					var want rule.AccessType
+					switch t.arg[i] {
+					case 'r':
+						want = rule.ReadAccessType
+					case 'w':
+						want = rule.WriteAccessType
+					case 'x':
+						want = rule.ExecuteAccessType
+					case 'a':
+						want = rule.AttributeChangeAccessType
+					}
+					vAssert(want != 0 && rr.Permissions[i] == want, "C14/permissions-not-reflected")
+				}
+			}
+		}
+	case *rule.SyscallRule:
+		vAssert(nA+nBigA+nF+nC+nS > 0, "C14/wrong-rule-kind")
+		vAssert(nA+nBigA == 1, "C14/both-or-neither-of-a-and-A-accepted")
+		sameList(rr.Keys, keys, "C14/key-not-reflected")
+		var sys []string
+		fi := 0
+		for _, t := range toks {
+			switch t.kind {
+			case 'a', 'A':
+				parts := strings.Split(t.arg, ",")
+				l, a := vTrim(parts[0]), vTrim(parts[1])
+				if l == "always" || l == "never" {
+					l, a = a, l
+				}
+				vAssert(rr.List == l && rr.Action == a, "C14/list-action-not-reflected")
+				if t.kind == 'a' {
+					vAssert(rr.Type == rule.AppendSyscallRuleType, "C14/append-prepend-confused")
+				} else {
+					vAssert(rr.Type == rule.PrependSyscallRuleType, "C14/append-prepend-confused")
+				}
+			case 'S':
+				for _, w := range strings.Split(t.arg, ",") {
+					sys = append(sys, vTrim(w))
+				}
+			case 'F', 'C':
+				ops := vFilterOps
+				typ := rule.ValueFilterType
+				if t.kind == 'C' {
+					ops, typ = vCompareOps, rule.InterFieldFilterType
+				}
+				if fi >= len(rr.Filters) {
+					break
+				}
+				f := rr.Filters[fi]
+				fi++
+				// the token with the blanks between field and operator removed
+				tt := vTrim(t.arg)
+				i := 0
+				for i < len(tt) && vIsWord(tt[i]) {
+					i++
+				}
+				word, rest := tt[:i], tt[i:]
+				for len(rest) > 0 && vIsSpace(rest[0]) {
+					rest = rest[1:]
+				}
+				isOp := false
+				for _, o := range ops {
+					if f.Comparator == o {
+						isOp = true
+					}
+				}
+				complete := vTrim(f.LHS+f.Comparator+f.RHS) == vTrim(word+rest)
+				if vKF("C14-filter-text-truncated") {
+					vKnown("C14-filter-text-truncated", isOp && len(word) > 0 && f.LHS == word && complete)
+					continue
+				}
+				vAssert(f.Type == typ, "C14/filter-kind")
+				vAssert(isOp, "C14/filter-operator-not-an-operator")
+				vAssert(len(word) > 0 && f.LHS == word, "C14/filter-field-not-the-complete-text-before-the-operator")
+				vAssert(complete, "C14/filter-text-not-accounted-for-in-full")
+			}
+		}
+		vAssert(len(rr.Filters) == nF+nC, "C14/not-exactly-one-filter-per-F-or-C")
+		sameList(rr.Syscalls, sys, "C14/syscall-not-reflected")
+	default:
+		vAssert(false, "C14/wrong-rule-kind")
+	}
+}
